@@ -601,8 +601,18 @@ fn drive_connection(
                 return false;
             }
             Ok(_) => continue,
-            Err(ref e) if would_block(e) => return false,
-            Err(ref e) if interrupted(e) => return drive_connection(conn, wbuf, msgs),
+            // Nothing of `buf` was written in either case, so it must stay at the front of the line: dropping it here
+            // would lose a whole message or, worse, the rest of a partially written one, gluing the next message onto
+            // the fragment the client already received.
+            Err(ref e) if would_block(e) => {
+                wbuf.replace(buf);
+                return false;
+            }
+            Err(ref e) if interrupted(e) => {
+                wbuf.replace(buf);
+                continue;
+            }
+
             Err(e) => {
                 error!(?conn, error = %e, "write failed");
                 return true;
